@@ -284,7 +284,7 @@ func (m *monitor) encLengths() []int {
 	r := m.r
 	rng := r.RNG("enc-lengths")
 	ls := []int{0, 1, 2, 65535, 65536, 65537, 131071, 131072, 131073, 196608, 196609}
-	ls = append(ls, 3+rng.Intn(4000), 65538+rng.Intn(65000), 200000+rng.Intn(60000))
+	ls = append(ls, 3+rng.Intn(4000), 65538+rng.Intn(65000), 200000+rng.Intn(60000), m.alignedLength())
 	if r.Thorough() {
 		ls = append(ls, 3+rng.Intn(60000), 131074+rng.Intn(65000), 262144, 327680, 327681, 400000)
 	}
@@ -362,10 +362,7 @@ func (m *monitor) encCase(ci int, c encCase, segs []segSpec) {
 	}
 	r.Distinct("enc/" + c.name() + "/single")
 	r.Tab("enc_length", lenClass(c.length))
-	h := sha256.Sum256(base.out)
-	r.SampleN("enc-"+fm, 2, map[string]any{"case": c.name(), "tape_label": label, "ciphertext_bytes": len(base.out),
-		"ciphertext_sha256": hex.EncodeToString(h[:8]), "result": "identical for every segmentation run"})
-
+	compared, identical := 0, 0
 	for si, sg := range segs {
 		rng := mon.NewRNG(r.Seed, fmt.Sprintf("c12-seg-%s-%d", c.name(), si))
 		sizes, ok := sg.gen(c.length, rng)
@@ -387,13 +384,19 @@ func (m *monitor) encCase(ci int, c encCase, segs []segSpec) {
 			continue
 		}
 		m.checkSnaps(c, fm, segClass, er, hdr16, rp)
-		if !bytes.Equal(er.out, base.out) {
+		compared++
+		if bytes.Equal(er.out, base.out) {
+			identical++
+		} else {
 			d := firstDiff(er.out, base.out)
 			r.Violate(fmt.Sprintf("enc-differs:%s/seg=%s/%s", fm, segClass, lenClass(c.length)),
 				fmt.Sprintf("%s: segmentation %s (%d writes) gives a different ciphertext under the same tape: %d bytes vs %d with a single write, first difference at byte %d",
 					c.name(), sg.name, len(sizes), len(er.out), len(base.out), d), rp)
 		}
 	}
+	h := sha256.Sum256(base.out)
+	r.SampleN("enc-"+fm, 2, map[string]any{"case": c.name(), "tape_label": label, "ciphertext_bytes": len(base.out),
+		"ciphertext_sha256_prefix": hex.EncodeToString(h[:8]), "segmentations_compared_with_single_write": compared, "byte_identical": identical})
 }
 
 func (m *monitor) encFailure(c encCase, fm, seg string, er *encRun, rp map[string]any) {
